@@ -112,10 +112,10 @@ def check_same_curve(h, old, pt, with_np, tag=""):
                 h.check(tag + "outside_rows_have_zero_heat_capacity", h.eq(pt.loc[j, cp], 0.0))
 
 
-def _ob_insert(nmax, kmax):
+def _ob_insert(nmax, kmax, kmin=1):
     def ob(h):
         n = h.choice("rows", list(range(2, nmax + 1)))
-        k = h.choice("requests", list(range(1, kmax + 1)))
+        k = h.choice("requests", list(range(kmin, kmax + 1)))
         with_np = h.choice("np_column_populated", [True, False])
         pt, _ = wf_table(h, n, with_np=with_np)
         old = rows(pt)
@@ -157,6 +157,8 @@ def obligations():
     return [
         Obligation("C08.apply.b", _ob_insert(3, 2), kind="bounded", bound="tables of 2..3 rows x 1..2 requested temperatures (list or scalar), NaN or populated optional curve",
                    functions=fs, expect=exp, max_paths=40000, doc="WF, SAMECURVE, COUNT, IDEMPOTENT for one call"),
+        Obligation("C08.apply3.b", _ob_insert(2, 3, kmin=3), kind="bounded", bound="2-row tables x 3 requested temperatures in any order (duplicates, ties, out of range)",
+                   functions=fs, max_paths=100000, doc="WF, SAMECURVE, COUNT, IDEMPOTENT for three requests in one call"),
         Obligation("C08.history.b", ob_two_calls, kind="bounded", bound="2-row table, two successive single insertions", functions=fs, max_paths=20000,
                    doc="the invariant carries over a two-call history"),
         Obligation("C08.apply.large.b", _ob_insert(4, 3), kind="bounded", tier="thorough", bound="tables of 2..4 rows x 1..3 requested temperatures", functions=fs,
